@@ -175,6 +175,11 @@ Definition wb_flush (b : wblock) : res wblock :=
 Definition wb_into_lines (b : wblock) : res (list tline) :=
   do b1 <- wb_flush b; Ok (wtext b1).
 
+(* into_lines_and_markers: the lines, plus the markers left on a last line that has no text (such
+   a line is never emitted) *)
+Definition wb_into_lines_markers (b : wblock) : res (list tline * list elem) :=
+  do b1 <- wb_flush b; Ok (wtext b1, tv (wline b1)).
+
 (* the elements of a word split into (everything up to its last element with content, the markers
    that trail it); for a word without content: ([], the whole word) *)
 Fixpoint trailing_frags (w : list elem) : list elem * list elem :=
